@@ -262,6 +262,7 @@ def main():
         "assumptions": list(getattr(mod, "ASSUMPTIONS", [])),
         "wall_s": round(wall, 2),
         "violations": len(violations),
+        "known_findings_reported": known_lines,
         "notes": notes,
     }
     core.write_json(os.path.join(core.EVIDENCE, prop + ".json"), ev)
